@@ -812,8 +812,16 @@ class Interp:
             r = self.opaque_call(e, args, kws)
             ev.d["result"] = r
             return r
+        pre = self.ctx.spec.get("pre", {}).get(fn.qual)
+        if pre is not None:
+            pre(self, e, fn, args, kws)
         r = self.run_function(fn, args, kws, self_val=self_val, path=fr.path, depth=depth, call_node=e)
         r = r.with_ctrl(fr.ctrl[-1])
+        post = self.ctx.spec.get("post", {}).get(fn.qual)
+        if post is not None:
+            r2 = post(self, e, fn, args, kws, r)
+            if r2 is not None:
+                r = r2
         ev.d["result"] = r
         return r
 
@@ -986,6 +994,19 @@ class Interp:
     def s_For(self, s):
         fr = self.fr
         it = self.ev(s.iter)
+        seq = it.tag("zip_items") or (it.items if it.tag("kind") in ("tuple", "list") else None)
+        if seq is not None and 0 < len(seq) <= 6 and not s.orelse and not any(
+                isinstance(n, (ast.Break, ast.Continue)) for n in ast.walk(s)):
+            # a loop over a fixed-length sequence is unrolled (keeps the pairing of zipped lists)
+            fr.loops.append((fr.fn.qual, s.lineno))
+            st = NORMAL
+            for item in seq:
+                self.bind_target(s.target, item, s)
+                st = self.run_body(s.body)
+                if st != NORMAL:
+                    break
+            fr.loops.pop()
+            return st if st in (RETURN, RAISE) else NORMAL
         elem = self.iter_elem(it, s.iter)
         zero_trip = self.may_be_empty(it)
         loop_id = (fr.fn.qual, s.lineno)
